@@ -902,10 +902,11 @@ def gen_numeric_doc(rng):
     if k in (23, 24):
         # path data and basic shapes, degenerate and extreme: what the shape conversion emits must be a valid path or nothing
         N = lambda: rng.choice(['0', '10', '-5', '3e38', '-3e38', '1e-40', '1e39', '50', '2.5'])
+        # (arc parameters stay moderate: huge arcs are C01's known class path-arc-huge)
         D = [
             'M %s %s' % (N(), N()), 'M %s %s Z' % (N(), N()), 'M 1 1 M %s %s L %s %s' % (N(), N(), N(), N()), 'L %s %s' % (N(), N()),
             'M 0 0 Z M %s %s' % (N(), N()), 'M 0 0 L %s %s Z Z M 5 5' % (N(), N()), 'Z', 'M 1 1 M 2 2 M 3 3', 'm %s %s l %s %s z l 3 3' % (N(), N(), N(), N()),
-            'M 0 0 Q %s %s 5 5 T %s %s' % (N(), N(), N(), N()), 'M 0 0 A %s %s 0 1 1 %s %s' % (N(), N(), N(), N()), 'M 0 0 H %s V %s' % (N(), N()),
+            'M 0 0 Q %s %s 5 5 T %s %s' % (N(), N(), N(), N()), 'M 0 0 A %s %s 0 1 1 %s %s' % tuple(rng.choice(['0', '10', '-5', '1e-40', '50', '2.5', '1e6']) for _ in range(4)),     'M 0 0 H %s V %s' % (N(), N()),
             'M 0 0 L 10 10 M %s %s' % (N(), N()), 'M %s %s L %s %s L' % (N(), N(), N(), N()), 'M 0 0 C 1 1 2 2 %s %s S %s %s 9 9' % (N(), N(), N(), N()), '']
         shapes = [
             '<path d="%s" stroke="black"/>' % rng.choice(D), '<path d="%s" fill="red"/>' % rng.choice(D),
